@@ -3,6 +3,7 @@ package main
 // Must-hold lockset analysis (analysis F) over go/ssa, used by C09, C10, C11.
 
 import (
+	"fmt"
 	"go/token"
 	"go/types"
 	"sort"
@@ -875,4 +876,172 @@ func reentryRule(w *World, r *Report, e *Engine, rule string, fns []*ssa.Functio
 		}
 	}
 	return n
+}
+
+// objectWritesRule: the objects programs share by reference (atoms, futures) carry their own mutex; whatever
+// is stored into any of their fields once the object exists is stored with that mutex held in write mode -
+// also from outside their package (a builtin that attaches something to the object a program handed it
+// writes into an object every other evaluation may be reading).
+func objectWritesRule(w *World, r *Report, e *Engine, rule string) {
+	r.rule(rule, "every store into a field of an atom or a future that the guard rules do not list (metadata, channels, cancel function; from any package) is made on an object allocated in the same activation or with that object's mutex held in write mode: no builtin updates in place an object that other evaluations share")
+	n := 0
+	for _, row := range w.guardRows()[:2] {
+		pkg := w.ByPath[modPath+"/"+row.pkg]
+		if pkg == nil || pkg.Types.Scope().Lookup(row.typ) == nil {
+			r.undecided(rule, nil, row.typ, token.NoPos, "type no longer resolves")
+			continue
+		}
+		st, ok := pkg.Types.Scope().Lookup(row.typ).Type().Underlying().(*types.Struct)
+		if !ok {
+			continue
+		}
+		g := guardedField{pkg: row.pkg, typ: row.typ, mutex: row.mutex}
+		for i := 0; i < st.NumFields(); i++ {
+			f := st.Field(i)
+			if f.Name() == row.mutex || isSyncMutex(f.Type()) || strings.HasPrefix(f.Type().String(), "sync.") {
+				continue
+			}
+			listed := false
+			for _, lf := range row.fields {
+				listed = listed || lf == f.Name()
+			}
+			if listed {
+				continue // reads and writes of these are the business of the guard rule (lock-required methods included)
+			}
+			g.fields = append(g.fields, f.Name())
+		}
+		for _, a := range w.fieldAccesses(g) {
+			st, isStore := a.in.(*ssa.Store)
+			if !isStore || st.Addr != ssa.Value(a.fa) {
+				continue
+			}
+			n++
+			held := e.locks(a.fn).before[a.in]
+			key := e.keyOf(a.fa.X).String() + "." + g.mutex
+			construct := "store into " + g.typ + "." + a.field
+			switch {
+			case held[key] >= 2:
+				r.ok(rule, a.fn, construct, instrPos(a.in), "write lock "+key+" held")
+			case e.freshPtr(a.fa.X, 0):
+				r.ok(rule, a.fn, construct, instrPos(a.in), "object allocated in this activation, not yet shared")
+			default:
+				r.bad(rule, a.fn, construct, instrPos(a.in), "a field of an object that programs share by reference is assigned without its mutex ("+key+"; held: "+held.String()+"): an evaluation that was only handed the object changes it for every other evaluation, and the unsynchronised write races with their reads")
+			}
+		}
+	}
+	r.floor(rule, "stores into the remaining fields of atoms and futures", n, 3)
+}
+
+// tableEscapeRule: a scope's binding table is reached only through the scope's own methods, which take its
+// lock and write only what def writes. The table itself never leaves them: a load of the table field is
+// used to look up, update, range over or measure the table - it is not returned, stored, boxed or passed
+// to another function. (A getter that returns the table lets whoever displays the bindings - the stepping
+// engine - write into it, behind the lock and behind def.)
+func tableEscapeRule(w *World, r *Report, rule string) {
+	ro := w.roles()
+	r.rule(rule, "the binding table of a scope (the map field of env.Env) is used only for lookup, update, iteration, len and delete where it is loaded: it is never returned, assigned to another variable that is returned, stored, boxed into an interface or passed to a function, so no holder of a scope can read or write bindings except through the scope's locked methods")
+	g := guardedField{pkg: "env", typ: "Env", fields: []string{ro.envData}, mutex: ro.envMu}
+	n := 0
+	seenLoad := map[ssa.Value]bool{}
+	for _, a := range w.fieldAccesses(g) {
+		ld, ok := a.in.(*ssa.UnOp)
+		if !ok || seenLoad[ld] {
+			continue
+		}
+		seenLoad[ld] = true
+		n++
+		escape := ""
+		seen := map[ssa.Value]bool{}
+		var follow func(v ssa.Value, depth int)
+		follow = func(v ssa.Value, depth int) {
+			if seen[v] || depth > 6 || v.Referrers() == nil {
+				return
+			}
+			seen[v] = true
+			for _, ref := range *v.Referrers() {
+				switch u := ref.(type) {
+				case *ssa.Lookup, *ssa.MapUpdate, *ssa.Range, *ssa.DebugRef:
+				case *ssa.Phi:
+					follow(u, depth+1)
+				case *ssa.BinOp:
+					// comparison with nil
+				case ssa.CallInstruction:
+					if bi, ok := u.Common().Value.(*ssa.Builtin); ok && (bi.Name() == "len" || bi.Name() == "delete" || bi.Name() == "clear") {
+						continue
+					}
+					escape = "passed to " + describeCallInstr(nil, u)
+				case *ssa.Return:
+					escape = "returned"
+				case *ssa.Store:
+					if u.Val == v {
+						escape = "stored into " + describeVal(nil, u.Addr, 0)
+					}
+				case *ssa.MakeInterface:
+					escape = "boxed into an interface value"
+				case *ssa.MakeClosure:
+					escape = "captured by a closure"
+				default:
+					escape = fmt.Sprintf("used by %T", ref)
+				}
+			}
+		}
+		follow(ld, 0)
+		r.check(escape == "", rule, a.fn, "use of the binding table loaded from a scope", instrPos(a.in), "lookup, update, iteration, len or delete only", "the scope's own binding table is "+escape+": the caller holds the live map of a scope (for the root scope: the global bindings), so displaying or merging bindings writes into scopes behind their lock, and whoever is handed a scope can rebind names without def")
+	}
+	r.floor(rule, "loads of the binding table", n, 5)
+}
+
+// updateAtomicRule: the scope's read-modify-write (Update: read the binding, hand it to the caller's
+// function, store what that returns) is one critical section. The binder keeps its registry of bound
+// functions with it; two registrations on one environment that each read the old registry and store their
+// own copy lose one of the two names. In every method of a scope that calls a function value it was given,
+// the scope's lock is held in write mode at that call and at every access to the scope's table in it.
+func updateAtomicRule(w *World, r *Report, e *Engine, rule string) {
+	ro := w.roles()
+	r.rule(rule, "a method of env.Env that applies a function it was given (Update) holds the scope's mutex in write mode at the call of that function and at every read or write of the binding it makes (through the lock-free methods): reading, computing and storing are one critical section, so concurrent registrations on one environment all end up in the registry")
+	n := 0
+	for _, fn := range w.pkgFuncs("env") {
+		if fn.Signature.Recv() == nil || len(fn.Blocks) == 0 || len(fn.Params) == 0 {
+			continue
+		}
+		if _, name, ok := w.namedStruct(fn.Params[0].Type()); !ok || name != "Env" {
+			continue
+		}
+		li := e.locks(fn)
+		key := e.keyOf(fn.Params[0]).String() + "." + ro.envMu
+		var cb []ssa.Instruction
+		for _, b := range fn.Blocks {
+			for _, in := range b.Instrs {
+				c, ok := in.(*ssa.Call)
+				if !ok || c.Call.IsInvoke() || c.Call.StaticCallee() != nil {
+					continue
+				}
+				if p, ok := c.Call.Value.(*ssa.Parameter); ok && p.Parent() == fn {
+					cb = append(cb, in)
+				}
+			}
+		}
+		if len(cb) == 0 {
+			continue
+		}
+		for _, in := range cb {
+			n++
+			r.check(li.before[in][key] >= 2, rule, fn, "call of the caller's function", in.Pos(), "write lock "+key+" held", "the function that computes the new value runs without the scope's write lock (held: "+li.before[in].String()+"): between reading the old value and storing the new one another goroutine's update gets in, and one of the two is lost (a function bound concurrently is missing from the registry)")
+		}
+		// the accesses on the same receiver around it
+		for _, b := range fn.Blocks {
+			for _, in := range b.Instrs {
+				c, ok := in.(*ssa.Call)
+				if !ok || c.Call.StaticCallee() == nil || len(c.Call.Args) == 0 || c.Call.Args[0] != ssa.Value(fn.Params[0]) {
+					continue
+				}
+				if sc := c.Call.StaticCallee(); sc.Signature.Recv() == nil || fnPkgPath(sc) != fnPkgPath(fn) {
+					continue
+				}
+				n++
+				r.check(li.before[in][key] >= 2, rule, fn, "access to the binding: "+c.Call.StaticCallee().Name(), in.Pos(), "inside the write-locked section", "the binding is read or written outside the critical section of the update (held: "+li.before[in].String()+"): read, compute and store are separate steps that another goroutine can interleave")
+			}
+		}
+	}
+	r.floor(rule, "calls made by the read-modify-write methods of a scope", n, 3)
 }
